@@ -176,7 +176,10 @@ impl<'a> RunCtx<'a> {
     }
 }
 
-fn cell(c: char, with_fold: bool, table: &mut SetTable) -> Value {
+/// One abstract character of a test case. `lowc` is the character at the same position of the
+/// lower-cased test case (str::to_lowercase is context sensitive: final sigma), if lower-casing keeps
+/// the number of code points.
+fn cell(c: char, lowc: Option<char>, with_fold: bool, table: &mut SetTable) -> Value {
     let cl = classes();
     let cp = c as u32;
     let lit = set_ref(table, CharSet::single(c));
@@ -185,11 +188,27 @@ fn cell(c: char, with_fold: bool, table: &mut SetTable) -> Value {
     } else {
         lit.clone()
     };
-    json!({"lit": lit, "fold": fold, "d": cl.d.contains(cp), "w": cl.w.contains(cp), "s": cl.s.contains(cp)})
+    // "ls": lower-casing is stable for the (?i) semantics of the regex crate - the lower-case form is a
+    // character the crate folds together with c (so the code may, and must, lower-case it)
+    let ls = match lowc {
+        Some(l) => fold_orbit(c).contains(l as u32),
+        None => false,
+    };
+    let lowset = match lowc {
+        Some(l) if with_fold && ls => set_ref(table, CharSet::single(l)),
+        _ => lit.clone(),
+    };
+    json!({"lit": lit, "fold": fold, "d": cl.d.contains(cp), "w": cl.w.contains(cp), "s": cl.s.contains(cp),
+           "ls": ls, "low": lowset})
 }
 
 fn word_cells(s: &str, with_fold: bool, table: &mut SetTable) -> Vec<Value> {
-    s.chars().map(|c| cell(c, with_fold, table)).collect()
+    let lower: Vec<char> = s.to_lowercase().chars().collect();
+    let same_count = lower.len() == s.chars().count();
+    s.chars()
+        .enumerate()
+        .map(|(i, c)| cell(c, if same_count { Some(lower[i]) } else { None }, with_fold, table))
+        .collect()
 }
 
 /// Tokens of an escaped output: [0, cp] raw code point, [1, value] a \u{value} escape.
